@@ -62,7 +62,10 @@ theorem step?_chg {s s' : St} {tr : Tr} (hI : Inv s) (hS : SInv s) (hs : step? s
   | dec t =>
     simp only [step?] at hs; split at hs
     · split at hs
-      · rename_i p hbt _ _ tp htp; cases hs
+      · rename_i p hbt _ _ tp htp
+        split at hs
+        case isFalse => cases hs
+        cases hs
         have hst : tp.st = .inCb := by
           obtain ⟨x, hx, hxs, _⟩ := hI.cbFwd t p hbt
           rw [htp] at hx; cases hx; exact hxs
@@ -154,9 +157,9 @@ theorem step?_chg {s s' : St} {tr : Tr} (hI : Inv s) (hS : SInv s) (hs : step? s
   | nestDec t =>
     simp only [step?] at hs; split at hs
     · split at hs
-      · rename_i q hsu _ tp htp; cases hs
+      · rename_i q rest _ hsu _ tp htp; cases hs
         have hst : tp.st = .inCbN := by
-          obtain ⟨x, hx, hxs, _⟩ := hI.nFwd t q hsu
+          obtain ⟨x, hx, hxs, _⟩ := hI.nFwd t _ q hsu List.mem_cons_self
           rw [htp] at hx; cases hx; exact hxs
         exact Or.inr ⟨q, tp, _, htp, rfl, rfl, .ndec hst rfl rfl rfl⟩
       · cases hs
